@@ -127,7 +127,9 @@ pub fn make_dbs_named(dir: &str, role: ClusterRole, fresh: bool, name: &str, pid
         };
         (km, v)
     };
-    let dbs = Arc::new(Databases::new("adm".into(), "pw".into(), name.into(), name.into(), s1, s2, keys_map, pid, valid));
+    // the address the node BINDS to differs from the address its peers know it by (as with --external-address in a container set-up):
+    // every member table, acknowledgement and self-test of the cluster code goes by the external one
+    let dbs = Arc::new(Databases::new("adm".into(), "pw".into(), format!("0.0.0.0:{}", 3000 + pid), name.into(), s1, s2, keys_map, pid, valid));
     dbs.node_state.store(role as usize, Ordering::SeqCst);
     (dbs, r2, r1)
 }
